@@ -30,6 +30,7 @@ EXPLANATION = (
 def run(ctx):
     ctx.rule(tables)
     ctx.rule(stream_guards)
+    ctx.rule(stream_position)
     ctx.rule(readers)
     ctx.rule(wds)
     ctx.rule(wave_shape)
@@ -114,29 +115,93 @@ def tables(ctx, R="R-C11-dispatch-tables"):
               "avail_force_as lists %s" % sorted(avail[0]))
     ctx.check(choices == want and ch_sf, R, tool, decl, "--force-as offers exactly the names read_signal handles",
               "--force-as choices are %s (missing %s, extra %s)" % (sorted(choices), sorted(want - choices), sorted(choices - want)))
-    # suffix inference
+    # suffix inference: a decision list  predicate(name) -> container type
     g = prog.func("util._infer_force_as_from_rfilename")
-    rets = set()
-    for n in g.body_nodes():
-        if isinstance(n, ast.Assign) and astq.is_name(n.targets[0], "force_as"):
-            s_ = astq.const_str(n.value)
-            if s_ is not None:
-                rets.add(s_)
-            elif "rsplit" in astq.text(n.value):
-                rets.add("<soundfile type>")
+    gm = g.module
+    pairs, rets = {}, set()
+
+    def const_of(e):
+        v = astq.const_str(e)
+        if v is None and isinstance(e, ast.Name) and len(gm.assigns.get(e.id, ())) == 1:
+            v = astq.const_str(gm.assigns[e.id][0])
+        return v
+
+    def regex_suffixes(pat, node):
+        """(alternatives, literal prefix, end-anchored) of a pattern of the shape  .* LIT ( a | b | ... ) [$]"""
+        import re._parser as rp
+        import re._constants as rc
+        try:
+            items = list(rp.parse(pat))
+        except Exception as e:
+            raise AnalysisError("%s: cannot parse the regular expression %r: %s" % (R, pat, e))
+        anchored = bool(items) and items[-1][0] == rc.AT and items[-1][1] in (rc.AT_END, rc.AT_END_STRING)
+        alts, pre = None, ""
+        for op, av in items:
+            if op == rc.LITERAL and alts is None:
+                pre += chr(av)
+            elif op == rc.SUBPATTERN:
+                sub = list(av[3])
+                if len(sub) == 1 and sub[0][0] == rc.BRANCH:
+                    alts = []
+                    for br in sub[0][1][1]:
+                        if not all(o == rc.LITERAL for o, _ in br):
+                            raise AnalysisError("%s: non-literal alternative in %r" % (R, pat))
+                        alts.append("".join(chr(v) for _, v in br))
+                elif all(o == rc.LITERAL for o, _ in sub):
+                    alts = ["".join(chr(v) for _, v in sub)]
+            elif op in (rc.AT, rc.MAX_REPEAT, rc.MIN_REPEAT):
+                if op != rc.AT and alts is None:
+                    pre = ""
+            elif alts is None:
+                pre = ""
+        if alts is None:
+            raise AnalysisError("%s: cannot read suffix alternatives out of %r" % (R, pat))
+        return alts, pre, anchored
+
+    chain = [n for n in g.node.body if isinstance(n, ast.If)]
+    ctx.need(len(chain) >= 1, R, "decision chain not found in the suffix inference")
+    cur = chain[0]
+    while cur is not None:
+        t = cur.test
+        asg = [x for x in cur.body if isinstance(x, ast.Assign) and astq.is_name(x.targets[0], "force_as")] or \
+              [x for x in cur.body if isinstance(x, ast.Return)]
+        val = asg[0].value if asg else None
+        vlit = astq.const_str(val) if val is not None else None
+        if isinstance(t, ast.Call) and isinstance(t.func, ast.Attribute) and t.func.attr == "endswith" and t.args and astq.const_str(t.args[0]) is not None:
+            ctx.need(vlit is not None, R, "branch `%s` does not yield a literal type" % astq.text(t))
+            pairs[astq.const_str(t.args[0])] = vlit
+            rets.add(vlit)
+        elif isinstance(t, ast.Call) and (prog.qualify(gm, t.func, g) or "") in ("re.match", "re.search", "re.fullmatch") and len(t.args) == 2:
+            pat = const_of(t.args[0])
+            ctx.need(pat is not None, R, "regular expression in `%s` is not a literal" % astq.text(t)[:60])
+            how = (prog.qualify(gm, t.func, g) or "").split(".")[-1]
+            if vlit is not None:
+                # a prefix / specifier test (ark:, scp:) yielding a fixed type
+                rets.add(vlit)
             else:
-                raise AnalysisError("%s: suffix inference assigns a non-literal: %s" % (R, astq.text(n.value)))
+                alts, pre, anchored = regex_suffixes(pat, t)
+                uses_group = isinstance(val, ast.Call) and isinstance(val.func, ast.Attribute) and val.func.attr == "group"
+                ctx.need(uses_group, R, "regex branch yields %s" % (astq.text(val) if val is not None else None))
+                ctx.check(anchored or how == "fullmatch", R, g, cur,
+                          "the suffix pattern is anchored at the end of the name",
+                          "the pattern %r (re.%s) is not anchored at the end of the name: any name that merely contains %s<type> (model.pth, "
+                          "utt.wave, sig.npy.bak) is inferred as that type instead of raising IOError, and later branches (a trailing `|`) are shadowed"
+                          % (pat, how, pre))
+                for a_ in alts:
+                    pairs[pre + a_] = a_
+                    rets.add(a_)
+        elif "rsplit" in astq.text(t) or "splitext" in astq.text(t):
+            rets.add("<soundfile type>")
+        else:
+            raise AnalysisError("%s: unrecognised test in the suffix inference: %s" % (R, astq.text(t)[:80]))
+        if len(cur.orelse) == 1 and isinstance(cur.orelse[0], ast.If):
+            cur = cur.orelse[0]
+        else:
+            cur = None
     lit = rets - {"<soundfile type>"}
     ctx.check(lit <= handled, R, g, g.node, "every type the suffix inference can return is handled by the dispatch", "inferred but unhandled: %s" % sorted(lit - handled))
     ctx.check(lit == {"table", "wav", "hdf5", "npy", "npz", "pt", "sph", "kaldi"}, R, g, g.node,
               "suffix inference covers the documented suffixes", "suffix inference returns %s" % sorted(lit))
-    # pairing suffix -> type
-    pairs = {}
-    for n in g.body_nodes():
-        if isinstance(n, ast.If) and isinstance(n.test, ast.Call) and isinstance(n.test.func, ast.Attribute) and n.test.func.attr == "endswith" and n.test.args:
-            suf = astq.const_str(n.test.args[0])
-            val = astq.const_str(n.body[0].value) if n.body and isinstance(n.body[0], ast.Assign) else None
-            pairs[suf] = val
     want_pairs = {".wav": "wav", ".hdf5": "hdf5", ".npy": "npy", ".npz": "npz", ".pt": "pt", ".sph": "sph", "|": "kaldi"}
     ctx.check(pairs == want_pairs, R, g, g.node, "each suffix maps to its own container type", "suffix table is %s" % pairs)
     rs = astq.raises_of(g)
@@ -185,6 +250,60 @@ def stream_guards(ctx, R="R-C11-stream-guards"):
         if isinstance(t, FunctionInfo) and t.name.endswith("_read_signal"):
             n = containing_node(cfg, f, c)
             ctx.check(nf in dom.get(n, ()), R, f, c, "the stream guards precede %s" % t.name, "%s can run before the stream guards" % t.name)
+
+
+def stream_position(ctx, R="R-C11-stream-position"):
+    """An open stream is decoded from where the caller positioned it: on the way from read_signal to the decoder
+    nothing repositions it absolutely, consumes bytes without restoring the position, or closes it."""
+    prog = ctx.prog
+    root = prog.func("util.read_signal")
+    seen, work = set(), [(root, root.params[0], False)]
+    n_funcs = 0
+    DECODER_ENTRY = {"sphere_read_signal", "_wave_read_signal", "_scipy_io_read_signal", "_soundfile_read_signal", "_numpy_binary_read_signal",
+                     "_numpy_archive_read_signal", "_torch_read_signal", "_hdf5_read_signal", "_numpy_fromfile_read_signal", "_kaldi_table_read_signal",
+                     "_kaldi_input_read_signal"}
+    while work:
+        f, pname, inside = work.pop()
+        if (f.qualname, pname) in seen:
+            continue
+        seen.add((f.qualname, pname))
+        n_funcs += 1
+        is_decoder = inside or f.name in DECODER_ENTRY
+        saved = set()
+        for n in f.body_nodes():
+            if isinstance(n, ast.Assign) and isinstance(n.value, ast.Call) and astq.attr_call(n.value, "tell") and astq.is_name(n.value.func.value, pname):
+                for t in n.targets:
+                    if isinstance(t, ast.Name):
+                        saved.add(t.id)
+        for c in astq.func_calls(f):
+            if isinstance(c.func, ast.Attribute) and astq.is_name(c.func.value, pname):
+                m = c.func.attr
+                if m == "seek":
+                    whence = c.args[1] if len(c.args) > 1 else astq.kw(c, "whence")
+                    restored = c.args and isinstance(c.args[0], ast.Name) and c.args[0].id in saved and whence is None
+                    relative = whence is not None and astq.text(whence) in ("1", "os.SEEK_CUR", "io.SEEK_CUR")
+                    if not is_decoder:
+                        ctx.check(bool(restored or relative), R, f, c, "the stream is only ever moved back to a position saved with tell()",
+                                  "%s moves the caller's stream to an absolute position before it reaches the decoder: a stream positioned past other "
+                                  "data (records written back to back, an offset into a pack file) is decoded from the wrong place" % astq.text(c))
+                elif m in ("read", "readline", "readinto", "peek") and not is_decoder:
+                    ok = bool(saved) and any(astq.attr_call(x, "seek") and astq.is_name(x.func.value, pname) and x.args and isinstance(x.args[0], ast.Name)
+                                             and x.args[0].id in saved for x in astq.func_calls(f))
+                    ctx.check(ok, R, f, c, "bytes consumed before the decoder are handed back (tell / seek pair)",
+                              "%s consumes bytes of the caller's stream before the decoder sees it and the position is not restored with a saved tell()"
+                              % astq.text(c))
+                elif m in ("close", "detach", "truncate") and not is_decoder:
+                    ctx.bad(R, f, c, "%s disturbs the caller's stream" % astq.text(c), "stream left as given")
+            t = prog.resolve(f.module, c.func, f)
+            if isinstance(t, FunctionInfo) and t.cls is None:
+                for i, a in enumerate(c.args):
+                    if astq.is_name(a, pname) and i < len(t.params):
+                        work.append((t, t.params[i], is_decoder))
+                for k in c.keywords:
+                    if k.arg and astq.is_name(k.value, pname) and k.arg in t.params:
+                        work.append((t, k.arg, is_decoder))
+    ctx.floor(R, n_funcs, 8)
+    ctx.ok(R, root.loc(), "%d functions on the way from read_signal to the decoders examined for repositioning of the stream" % n_funcs)
 
 
 def _reader_value(prog, name):
